@@ -133,3 +133,43 @@ class Patterns:
     @functools.cached_property
     def lazily(self) -> str:
         return self._GROUP
+
+
+class Index:
+    """Memoisation per instance: cannot be observed when the value is computed from the arguments and from state that is fixed
+    once the constructor has finished - and only then."""
+
+    _known: list[str] = []
+
+    def __init__(self, prefix: str, names: tuple[str, ...]) -> None:
+        self._prefix = prefix
+        self._names = names
+        self._label = ""
+        self._first = self.during_construction("x")
+
+    def rename(self, label: str) -> None:
+        self._label = label
+
+    @functools.lru_cache(maxsize=None)
+    def of_fixed_state(self, name: str) -> str:
+        return self._prefix + name
+
+    @functools.cached_property
+    def fixed_lazily(self) -> tuple[str, ...]:
+        return tuple(sorted(self._names))
+
+    @functools.lru_cache(maxsize=None)
+    def of_later_state(self, name: str) -> str:
+        return self._label + name
+
+    @functools.cached_property
+    def list_lazily(self) -> list[str]:
+        return sorted(self._names)
+
+    @functools.lru_cache(maxsize=None)
+    def during_construction(self, name: str) -> str:
+        return self._prefix + name
+
+    @functools.cache
+    def of_mutable_class_state(self) -> tuple[str, ...]:
+        return tuple(self._known)
